@@ -432,3 +432,144 @@ Section Sim.
     cbn [steps]. rewrite R. exact Hs.
   Qed.
 End Sim.
+
+(* ---- without chunk events the running array size stays 0 ---- *)
+Definition chunk_free_p (p : prim) : bool :=
+  match p with
+  | PArrayRuleChunk | PStringRuleChunk | PForwardCurrent MArrayChunk | PForwardParent MArrayChunk => false
+  | _ => true
+  end.
+
+Lemma call_rule_arr_total0 cfg f r m a c c' :
+  call_rule f cfg r m a c = Some c' -> m <> MArrayChunk -> arr_total c = 0 -> arr_total c' = 0.
+Proof.
+  apply (call_rule_ind_gen cfg (fun _ m _ c c' => m <> MArrayChunk -> arr_total c = 0 -> arr_total c' = 0)).
+  intros call Hcall r0 m0 a0 c0 c0' H Hm.
+  assert (table_forall (fun _ m cell => has_reject cell || match m with MArrayChunk => true | _ => forallb chunk_free_p cell end) = true) as T
+    by (vm_compute; reflexivity).
+  pose proof (table_forall_spec _ T r0 m0) as T0. cbn beta in T0. apply orb_true_iff in T0 as [T0|T0].
+  { rewrite exec_prims_reject in H by exact T0. discriminate. }
+  assert (forallb chunk_free_p (dispatch r0 m0) = true) as T1 by (destruct m0; try exact T0; congruence).
+  clear T T0. revert c0 H. induction (dispatch r0 m0) as [|p ps IH]; intros c0 H Z; cbn [exec_prims forallb] in *.
+  - inv_some. exact Z.
+  - apply andb_true_iff in T1 as [Tp Tps]. destruct (exec_prim cfg call r0 m0 a0 p c0) as [c1|] eqn:E; [|discriminate].
+    apply (IH Tps c1 H). clear IH H Tps.
+    prim_cases p E; rsimpl; try assumption; try reflexivity; try discriminate Tp;
+      match goal with
+      | H : call _ ?mm _ _ = Some _ |- _ => apply Hcall in H; [exact H | first [discriminate | destruct mm; try discriminate; discriminate Tp] | rsimpl; assumption]
+      end.
+Qed.
+
+Lemma ev_plan_not_chunk cfg e pl : ev_plan cfg e = Some pl -> is_chunk_event e = false -> p_meth pl <> MArrayChunk.
+Proof.
+  destruct e as [| |v| |m t| |b| | |n|n|z|[z|]|bits|[bf|]|[| | |]|[[| | |]|]|s|b|s| | |id|id| | | |id|id|t cnt d|t d|mt d|ct d|ct d|t|mt|t ct|n m|d];
+    cbn [ev_plan is_chunk_event]; intros H N; try discriminate N;
+    repeat match goal with H : (if ?b then _ else _) = Some _ |- _ => destruct b; try discriminate H end;
+    unfold mkplan in H; inv_some; cbn; discriminate.
+Qed.
+
+Lemma steps_arr_total0 cfg es : forall c c', steps cfg c es = Some c' -> no_chunks es = true -> arr_total c = 0 -> arr_total c' = 0.
+Proof.
+  induction es as [|e es IH]; intros c c' H N Z; cbn [steps no_chunks forallb] in *; [inv_some; exact Z|].
+  apply andb_true_iff in N as [Ne Nes]. destruct (rstep cfg c e) as [[c1 o]|] eqn:R; [|discriminate].
+  apply (IH c1 c' H Nes). clear IH H.
+  rewrite rstep_plan in R. destruct (ev_plan cfg e) as [pl|] eqn:P; [|discriminate].
+  destruct (plan_step cfg pl c) as [c2|] eqn:S; [|discriminate]. inv_some.
+  pose proof (ev_plan_not_chunk _ _ _ P) as M. unfold plan_step, call_current in S.
+  destruct (is_chunk_event e); [discriminate|]. specialize (M eq_refl). destruct (p_nno pl) as [real|].
+  - destruct (notify_new_object cfg real c) as [c0|] eqn:NN; [|discriminate]. apply nno_fields in NN.
+    eapply call_rule_arr_total0; eauto. destruct NN as [_ [_ [_ [_ [_ [_ [_ [_ [_ [_ [_ [NN _]]]]]]]]]]]]. congruence.
+  - eapply call_rule_arr_total0; eauto.
+Qed.
+
+(* ---- usages of prefixes ---- *)
+Lemma count_if_app {A} (f : A -> bool) l1 l2 : count_if f (l1 ++ l2) = count_if f l1 + count_if f l2.
+Proof. induction l1 as [|x l IH]; cbn [app count_if]; [reflexivity | rewrite IH; lia]. Qed.
+
+Lemma ident_usage_in es e id : In e es -> event_ident e = Some id -> blen id <= ident_usage es.
+Proof.
+  induction es as [|x es IH]; intros H E; [destruct H|]; destruct H as [->|H]; unfold ident_usage in *; cbn [fold_right].
+  - rewrite E. lia.
+  - specialize (IH H E). destruct (event_ident x); lia.
+Qed.
+Lemma whole_array_usage_in es e n : In e es -> whole_array_bytes e = Some n -> n <= whole_array_usage es.
+Proof.
+  induction es as [|x es IH]; intros H E; [destruct H|]; destruct H as [->|H]; unfold whole_array_usage in *; cbn [fold_right].
+  - rewrite E. lia.
+  - specialize (IH H E). destruct (whole_array_bytes x); lia.
+Qed.
+Lemma length_ok_le_n cfg a b : a <= b -> length_ok cfg b = true -> length_ok cfg a = true.
+Proof. unfold length_ok. lia. Qed.
+
+(* ------------------------------------------------------------------------- *)
+(* C14: the main statements                                                   *)
+(* ------------------------------------------------------------------------- *)
+(* [chunk_side cfg es]: the part of the array-size limit that is not covered - either the
+   configuration has no array-size limit, or the event list has no chunked arrays *)
+Definition chunk_side (cfg : rcfg) (es : list event) : Prop := max_array_size_bytes cfg = 0 \/ no_chunks es = true.
+
+Lemma steps_sufficient cfg cfg' es c :
+  cfg_le cfg cfg' -> steps cfg' init_rctx es = Some c -> within_limits cfg es -> chunk_side cfg es ->
+  steps cfg init_rctx es = Some c.
+Proof.
+  intros Hle H [Wo [Wd [Wa [Wi Wm]]]] Side.
+  apply (steps_sim cfg cfg' Hle es init_rctx c H).
+  - apply Forall_forall. intros e Hin. unfold ev_guard. repeat split.
+    + intros id E. pose proof (ident_usage_in _ _ _ Hin E). lia.
+    + intros n E. eapply length_ok_le_n; [eapply whole_array_usage_in; eauto | exact Wa].
+    + intros d ->. destruct Side as [Z|N]; [unfold length_ok; rewrite Z; lia|].
+      unfold no_chunks in N. rewrite forallb_forall in N. specialize (N _ Hin). discriminate.
+  - unfold limv. cbn. split; lia.
+  - intros p q c1 E _ Hp. subst es. unfold good, limv, limr.
+    pose proof (steps_counters _ _ _ _ Hp) as [C1 C2]. cbn in C1, C2.
+    pose proof (steps_refcount_le_markers _ _ _ Hp) as C3.
+    unfold object_usage, marker_usage in *. rewrite count_if_app in *.
+    assert (depth_scan 0 (p ++ q) <= Z.of_N (max_container_depth cfg))%Z as D by (unfold depth_usage in Wd; lia).
+    rewrite depth_scan_le in D. specialize (D p q eq_refl).
+    repeat split; try lia.
+    intro Pos. destruct Side as [Z|N]; [lia|].
+    unfold no_chunks in N. rewrite forallb_app in N. apply andb_true_iff in N as [N _].
+    rewrite (steps_arr_total0 _ _ _ _ Hp N eq_refl). lia.
+Qed.
+
+(* Sufficiency: a list accepted under more generous limits and within the limits of [cfg] is
+   accepted under [cfg] - no rejection is caused by a limit that is not exceeded. *)
+Theorem limits_sufficient cfg cfg' es :
+  cfg_le cfg cfg' -> accepts cfg' es = true -> within_limits cfg es -> chunk_side cfg es -> accepts cfg es = true.
+Proof.
+  rewrite !accepts_steps. intros Hle [c H] W S. exists c. eapply steps_sufficient; eauto.
+Qed.
+
+Theorem limits_sufficient_document cfg cfg' es :
+  cfg_le cfg cfg' -> accepts_document cfg' es = true -> within_limits cfg es -> chunk_side cfg es ->
+  accepts_document cfg es = true.
+Proof.
+  rewrite !accepts_document_steps. intros Hle [c [H T]] W S. exists c. split; [eapply steps_sufficient; eauto | exact T].
+Qed.
+
+(* Necessity: an accepted list is within the object, depth, whole-array and identifier limits. *)
+Theorem limits_necessary cfg es :
+  accepts cfg es = true ->
+  object_usage es <= max_object_count cfg /\ depth_usage es <= max_container_depth cfg /\
+  length_ok cfg (whole_array_usage es) = true /\ ident_usage es <= max_identifier_length cfg.
+Proof.
+  intro A. repeat split.
+  - apply accepts_objects_within; exact A.
+  - apply accepts_depth_within; exact A.
+  - apply accepts_whole_arrays_within; exact A.
+  - apply accepts_idents_within; exact A.
+Qed.
+
+(* Exactness for the object, depth, identifier and (whole-)array limits, given that the marker limit
+   is not the binding one. *)
+Theorem limits_exact cfg es :
+  marker_usage es <= max_local_reference_count cfg -> chunk_side cfg es ->
+  (accepts cfg es = true <->
+   (exists cfg', cfg_le cfg cfg' /\ accepts cfg' es = true) /\
+   object_usage es <= max_object_count cfg /\ depth_usage es <= max_container_depth cfg /\
+   length_ok cfg (whole_array_usage es) = true /\ ident_usage es <= max_identifier_length cfg).
+Proof.
+  intros M S. split.
+  - intro A. split; [exists cfg; split; [apply cfg_le_refl | exact A] | apply limits_necessary; exact A].
+  - intros [[cfg' [Hle A]] [Wo [Wd [Wa Wi]]]]. eapply limits_sufficient; eauto. unfold within_limits. auto.
+Qed.
